@@ -326,6 +326,42 @@ class RandomEval:
         return out, self.rng.randrange(-16, 17) / 16.0
 
 
+class Sharp:
+    """a confident network: nearly all prior mass on two or three moves, every other move of the
+    table just above the search's cut-off, and an evaluation that likes the position for the side
+    to move (so that after a few visits the unvisited floor moves look best: the regularised
+    policy then hinges on alpha to many digits)"""
+
+    def __init__(self, seed, value):
+        import random
+
+        self.rng = random.Random(seed)
+        self.value = value
+
+    def evaluate(self, pos):
+        import torch
+        from tak.model import encoding
+
+        from ..lib import treedump as td
+
+        n = encoding.n_moves_for_size(pos.size)
+        floor = self.rng.choice([1.5e-6, 2e-6, 3e-6, 1e-5])
+        out = torch.zeros(encoding.MAX_MOVE_ID)
+        legal = td.legal_ids(pos)
+        if self.rng.random() < 0.5:
+            out[:n] = floor  # the whole table at the floor
+            mass = floor * n
+        else:
+            for i in legal:  # only what can be played
+                out[i] = floor
+            mass = floor * len(legal)
+        k = self.rng.choice([1, 2, 3, 3])
+        heavy = legal[:k] if self.rng.random() < 0.5 else self.rng.sample(legal, min(k, len(legal)))
+        for i in heavy:
+            out[i] = (1.0 - mass) / max(1, len(heavy))
+        return out, self.value
+
+
 class Shuffler:
     """A deterministic evaluator that, like a network, is a pure function of what the network
     sees (the token encoding: board, reserves, side to move -- not the ply).  While fewer than
@@ -400,6 +436,8 @@ def build_engine(case, fallback=None):
         ev = Uniform(float(Fraction(m["value"])))
     elif m["evaluator"] == "shuffler":
         ev = Shuffler(m["eval_seed"], m["stones"], float(Fraction(m["focus"])), float(Fraction(m["value"])))
+    elif m["evaluator"] == "sharp":
+        ev = Sharp(m["eval_seed"], float(Fraction(m["value"])))
     else:
         ev = RandomEval(m["eval_seed"])
     return mcts.MCTS(mcts.Config(time_limit=0, simulation_limit=m["sims"], C=m.get("C", 4)), ev)
@@ -820,11 +858,13 @@ def mcts_cases(ctx):
         g = 0
         while g < n:
             sims = budgets[g % len(budgets)]
-            evaluator = "uniform" if g % 2 == 0 else "random"
+            evaluator = ("uniform", "random", "sharp", "random")[g % 4]
+            if evaluator == "sharp":
+                sims = rng.choice([3, 6, 6, 12])
             spec = dict(
                 sims=sims,
                 evaluator=evaluator,
-                value=rng.choice(["0", "1/4", "-1/4", "1/2"]),
+                value=rng.choice(["0", "1/4", "-1/4", "1/2"]) if evaluator != "sharp" else rng.choice(["1/2", "3/4", "7/8", "1/4"]),
                 eval_seed=rng.randrange(1 << 30),
             )
             games = rng.choice([1, 1, 2, 3]) if size <= 4 else 1
@@ -993,8 +1033,10 @@ def process(ctx, labelled_cases=(), labelled_observations=()):
             # the exception came out of the engine, not out of play_one_game (C08-C10's business)
             ctx.count("excused:engine-raised")
             bad = False
-        if bad and r["answers"].startswith("answers-bad") and r["verdict"].split(":")[1] in ("distribution", "value-range"):
-            # the engine broke its own contract (C09/C10's business); not a finding about play_one_game
+        if bad and r["answers"].startswith("answers-bad") and r["verdict"].split(":")[1] in ("distribution", "value-range") and o.case["kind"] == "scripted":
+            # a SCRIPTED engine was told to answer outside its contract: not a finding about
+            # play_one_game.  (For the real search the property says it outright: the recorded search
+            # probabilities are a distribution - whichever layer produced them.)
             ctx.count("excused:engine-contract")
             bad = False
         if bad:
